@@ -1251,7 +1251,7 @@ LEVEL_TEXT = ("Machine-checked Coq theorems over a Gallina transcription of both
               "(C11_write_read_*, C11_bulk_*), the emptiness layer / legacy empty mask equals actual emptiness (C11_empty_layer_true, C11_empty_mask_true), "
               "select_cells selects exactly the coordinates satisfying masks, only_empty, conditions and the sequential "
               "highest/lowest criteria (C11_select_exact), list and mask form agree (C11_list_mask_same), and every rejected call "
-              "leaves the state unchanged (C18_proplayer_atomic). The model is tied to the code by differential evaluation on "
+              "leaves the state unchanged (C18_proplayer_atomic, C18_proplayer_full_cell); selection is also stated over ACTUAL emptiness for every reachable state (C11_select_exact_actual), and the order of the select_cells stages is re-extracted from the source on every run (T1, C11_source_select_order). The model is tied to the code by differential evaluation on "
               "random and enumerated histories (T2); an independent oracle states the property on the implementation.")
 LEVEL_NOTE = ("Theorems are about the model; NumPy primitives are modelled as list functions and validated only by the correspondence. "
               "Trusted: Coq kernel, the driver/observer, the hand transcription. No axioms.")
